@@ -87,7 +87,8 @@ type Relation struct {
 	Slice string
 	Count string
 	Fixed int
-	Rest  bool // slice takes the remainder of the block
+	Rest  bool   // slice takes the remainder of the block
+	Kind  string // "" | "utf16z" (even length, no aligned 00 00, 00 00 terminated) | "pad01" (0 or 1 alignment byte)
 }
 
 var (
@@ -98,6 +99,7 @@ var (
 	reLoop       = regexp.MustCompile(`for i := 0; i < int\(c\.(\w+)\); i\+\+`)
 	reAppend     = regexp.MustCompile(`c\.(\w+) = append\(c\.(\w+),`)
 	reIndex      = regexp.MustCompile(`c\.(\w+)\[i\] = `)
+	reUTF16z     = regexp.MustCompile(`(\w+), \w+ :?= utils\.GetNullTerminatedUnicodeString\(`)
 )
 
 // Relations extracts the length/count relations a structure's own Unmarshal
@@ -125,12 +127,19 @@ func Relations(name string) []Relation {
 	for _, m := range reSliceVar.FindAllStringSubmatch(src, -1) {
 		if f, ok := vars[m[2]]; ok {
 			out = append(out, Relation{Slice: m[1], Count: f})
+		} else if m[2] == "padLen" && strings.Contains(src, "padLen = 1") {
+			out = append(out, Relation{Slice: m[1], Kind: "pad01"})
 		} else if n := atoi(m[2]); n >= 0 {
 			out = append(out, Relation{Slice: m[1], Fixed: n})
 		}
 	}
 	for _, m := range reSliceRest.FindAllStringSubmatch(src, -1) {
 		out = append(out, Relation{Slice: m[1], Rest: true})
+	}
+	for _, m := range reUTF16z.FindAllStringSubmatch(src, -1) {
+		if a := regexp.MustCompile(`c\.(\w+) = \[\]types\.UCHAR\(` + m[1] + `\)`).FindStringSubmatch(src); a != nil {
+			out = append(out, Relation{Slice: a[1], Kind: "utf16z"})
+		}
 	}
 	lines := strings.Split(src, "\n")
 	for li, l := range lines {
@@ -306,6 +315,9 @@ func (f *filler) fill(v reflect.Value, top bool) {
 		}
 	case reflect.Slice:
 		n := f.length()
+		if t.Elem().Kind() == reflect.Uint16 {
+			n = n % 64 // word arrays (setup words) count against the 255-word parameter block
+		}
 		if t.Elem().Kind() == reflect.Struct || t.Elem().Kind() == reflect.String {
 			n = n % 4
 			if t.Elem().Kind() == reflect.String && n == 0 {
@@ -343,6 +355,9 @@ func Fill(c ci.CommandInterface, rels []Relation, rng *rand.Rand, mode Mode, max
 	v := reflect.ValueOf(c).Elem()
 	f := &filler{rng: rng, mode: mode, maxLen: maxLen}
 	f.fill(v, true)
+	if wc := v.FieldByName("WordCount"); wc.IsValid() && wc.Kind() == reflect.Uint8 {
+		wc.SetUint(0) // mirrors the framing count byte: not a free field
+	}
 	return ApplyRelations(v, rels)
 }
 
@@ -364,6 +379,19 @@ func ApplyRelations(v reflect.Value, rels []Relation) (unconstrained []string) {
 		}
 		related[r.Slice] = true
 		switch {
+		case r.Kind == "utf16z":
+			b := fv.Bytes()
+			b = b[:len(b)&^1]
+			for i := range b {
+				if b[i] == 0 {
+					b[i] = 0x41
+				}
+			}
+			fv.SetBytes(b)
+		case r.Kind == "pad01":
+			if fv.Len() > 1 {
+				resize(fv, fv.Len()%2)
+			}
 		case r.Rest:
 		case r.Count == "":
 			resize(fv, r.Fixed)
@@ -408,6 +436,17 @@ func resize(fv reflect.Value, n int) {
 	fv.Set(s)
 }
 
+// PadFields returns the slice fields that are 0-or-1-byte alignment pads.
+func PadFields(rels []Relation) []string {
+	var out []string
+	for _, r := range rels {
+		if r.Kind == "pad01" {
+			out = append(out, r.Slice)
+		}
+	}
+	return out
+}
+
 // CountFields returns the set of integer fields that are relation targets.
 func CountFields(rels []Relation) map[string]bool {
 	m := map[string]bool{}
@@ -443,6 +482,18 @@ func diff(a, b reflect.Value, path string, top bool, out *[]string) {
 		for i := 0; i < t.NumField(); i++ {
 			sf := t.Field(i)
 			if !sf.IsExported() || (top && sf.Anonymous && sf.Name == "Command") {
+				continue
+			}
+			if t.Name() == "SMB_RESUME_KEY" && sf.Name == "SMB_STRING" {
+				continue // derived: Marshal rebuilds it from Reserved/ServerState/ClientState
+			}
+			if t.Name() == "SMB_DIRECTORY_INFORMATION" && sf.Name == "FileName" {
+				// 8.3 names are space-padded to 12 bytes on the wire: compared modulo trailing spaces
+				ab := a.Field(i).FieldByName("SMB_STRING").FieldByName("Buffer").Bytes()
+				bb := b.Field(i).FieldByName("SMB_STRING").FieldByName("Buffer").Bytes()
+				if strings.TrimRight(string(ab), " ") != strings.TrimRight(string(bb), " ") {
+					*out = append(*out, path+".FileName")
+				}
 				continue
 			}
 			p := sf.Name
@@ -523,6 +574,9 @@ func IntLeaves(t reflect.Type) []IntLeaf {
 			for i := 0; i < t.NumField(); i++ {
 				sf := t.Field(i)
 				if !sf.IsExported() || (isTop && sf.Anonymous && sf.Name == "Command") {
+					continue
+				}
+				if isTop && sf.Name == "WordCount" {
 					continue
 				}
 				p, tp := sf.Name, sf.Name
